@@ -126,7 +126,7 @@ def gen(rng, tier):
     cp = os.path.join(vlib.VERIF, "corpus", "C02", "ops.txt")
     if os.path.exists(cp):
         ops += [l.strip() for l in open(cp) if l.strip() and not l.startswith("#")]
-    per_solver = 14 if tier == "quick" else 160
+    per_solver = 30 if tier == "quick" else 200
     for k in range(per_solver * len(ALL_SOLVERS)):
         sid = ALL_SOLVERS[k % len(ALL_SOLVERS)]
         ls = sid in c01.LS_SOLVERS
